@@ -19,13 +19,14 @@ CLAIM = dict(
          'at the end of a pass all 400 ordered pairs must have been adjacent (checked by the trace specification against ComplexFun.Decomp). '
          'pow/powf are additionally judged for exponents k +- (1 ulp, 1e-15 .. 1e-6) around every integer -3..3 and +-0.5, +-1.5 (pow also with imaginary part +-1e-9) against exp(w ln z) in double-double. '
          'Immediately after each call the same function is called on every signed-zero twin of its argument and on the argument again (for z in the -0.0 regions and at 0, for every exponent and base with a zero part), each twin value judged against its own reference (caches keyed by ==). '
+         'Every region is also evaluated at the points built from the crate\'s own constants (ohsl::constant PI, PI_2, PI_4, FRAC_1_PI, FRAC_2_PI, TAU, SQRTPI, SQRT2, SQRT1_2, E, EULER, their halves and doubles, exact bit patterns): +-C as real part, imaginary part or both, with zero, ordinary or constant other part, and as exponents and bases of pow/powf/log. '
          'A soak obligation per function (2^16+64 consecutive guarded calls on fixed inexact arguments, every result bit-identical to the first, no panic) covers call-count dependence. '
          'The harness discharges every obligation on the real code; the trace specification accepts iff EVERY obligation appears, in the specification\'s own order, with the parameters the specification fixed, '
          'err_units <= 1, range flag true.',
     note='Decided by the specification/TLC: the case matrix, its complete coverage, the range predicates and which functions pair up, the exact sqrt/integer-power expectations. '
          'NOT decided by TLC: the numeric agreement. TLC cannot evaluate a transcendental function; err_units is measured by trusted Rust code (harness/src/suites/cfun.rs) against independent references '
          '(double-double power series, exp by argument halving, ln by Newton iteration on that exp from the real std ln/atan2, real std functions on the axes) in units of 64*eps*max(1,|values|)*cond, '
-         'where cond is a per-relation constant calibrated on the unchanged tree (26 seeds x 4 passes x 8 random points per region = 50.1e6 evaluations: worst observation 0.0078 unit, i.e. 128x below the guard; no range-predicate failure). This part is of level "exploration" in substance: '
+         'where cond is a per-relation constant calibrated on the unchanged tree (26 seeds x 4 passes x 8 random points per region = 205.5e6 evaluations (22 seeds): worst observation 0.0078 unit, i.e. 128x below the guard; no range-predicate failure). This part is of level "exploration" in substance: '
          'a branch/sign/quadrant error is O(|z|) >= 1e-3, i.e. >= 1e9 units, but an error below ~1e-12 relative is not detected. On a branch cut only the range predicate and the right-inverse identity are demanded (no side convention): for arguments with a -0.0 part the open ends of the ranges are closed by the specification and z^w is accepted for either limit of ln z. Next to the poles the quotient definitions are evaluated in double-double from the crate\'s own sin/cos/sinh/cosh at the same f64 argument, so a closed form that cancels there (relative error eps/(2 d^2)) is rejected from d = 1e-3 on. The point 0 lies outside 1e-3 <= |z| but inside the non-overflowing domain; only relations whose members are all finite there are demanded. '
          'Range predicates not stated by the property (e.g. Re acosh >= 0) are not demanded.',
     design='4 (C14), 8, Appendix C')
